@@ -304,7 +304,9 @@ func (m *C14) AfterCommit(w *chain.World, blk *chain.BlockRecord) {
 			}
 		}
 		r := s.String()
-		if prev, ok := m.last[c.Creator]; ok && prev != r && !m.touched[c.Creator] {
+		// module accounts are vested for by the protocol itself (the provider reward account: estaking
+		// claims and re-vests for it at every provider-vesting epoch): only users' entries are judged
+		if prev, ok := m.last[c.Creator]; ok && prev != r && !m.touched[c.Creator] && w.ActorByAddr(c.Creator) != nil {
 			m.viol(w, "C14.entries_change_only_by_owner_ops", c.Creator, "block", fmt.Sprintf("height %d: vesting entries changed %s -> %s without a vesting message of the owner (ops %v)", w.Height, prev, r, OpsOf(blk)))
 		}
 		m.last[c.Creator] = r
